@@ -73,8 +73,11 @@ BOXES = {
 ROOTS = ["SEA", "SEAX", "GA", "SEAA", "MWEA", "DE", "DEd", "SHADE", "LHS", "SOB"]
 NONROOT = ["CMAf", "CMAw", "CMAs", "LOC"]
 ALL = ROOTS + NONROOT
-SEA_FAMILY = ["SEA", "SEAX", "GA", "SEAA", "MWEA"]
-POP_ENGINES = ["SEA", "SEAX", "GA", "SEAA", "MWEA", "DE", "DEd", "SHADE"]
+# user-assembled engines (BaseSEA subclasses with their own operator pipeline, passed as ea_class): not part of ROOTS / ALL,
+# used by the checks that name them
+USER_EAS = ["UEAm", "UEA3", "UEAi"]
+SEA_FAMILY = ["SEA", "SEAX", "GA", "SEAA", "MWEA"] + USER_EAS
+POP_ENGINES = ["SEA", "SEAX", "GA", "SEAA", "MWEA", "DE", "DEd", "SHADE"] + USER_EAS
 EXPECTED_CLASS = {
     "SEA": "EADeme",
     "SEAX": "EADeme",
@@ -90,6 +93,9 @@ EXPECTED_CLASS = {
     "LOC": "LocalDeme",
     "LHS": "LHSDeme",
     "SOB": "SobolDeme",
+    "UEAm": "EADeme",
+    "UEA3": "EADeme",
+    "UEAi": "EADeme",
     "STUB": "StubDeme",
     "STUBEA": "StubDeme2",
     "STUBX": "StubDeme3",
@@ -537,15 +543,66 @@ class StubDeme3(StubDeme):
 # --------------------------------------------------------------------------------------
 
 
+class _Tripler:
+    """lambda = 3 mu: every parent is taken three times (the mutation that follows makes them differ)."""
+
+    def __call__(self, population):
+        return population.merge(population.copy()).merge(population.copy())
+
+
+class _Immigrants:
+    """Replaces the last individual by a fresh uniform sample, evaluated through the problem the engine was created with."""
+
+    def __init__(self, problem):
+        self.problem = problem
+
+    def __call__(self, population):
+        new = population.copy()
+        b = self.problem.bounds
+        g = b[:, 0] + np.random.rand(len(b)) * (b[:, 1] - b[:, 0])
+        new.genomes[-1] = g
+        new.fitnesses[-1] = self.problem.evaluate(g)
+        return new
+
+
+def _user_ea_classes():
+    from pyhms.demes.single_pop_eas.sea import BaseSEA, GaussianMutation, TournamentSelection
+
+    def mk(name, pipeline):
+        def create(cls, **kw):
+            problem = kw.get("problem")
+            return cls(variational_operators_pipeline=pipeline(problem, kw), k_elites=kw.get("k_elites", 1))
+
+        return type(name, (BaseSEA,), {"create": classmethod(create)})
+
+    def gm(problem, kw):
+        return GaussianMutation(std=kw.get("mutation_std", 1.0), bounds=problem.bounds, probability=kw.get("p_mutation", 1.0))
+
+    return {
+        # evolutionary-programming style: no mating selection, every parent mutated once
+        "UEAm": mk("MutationOnlyEA", lambda p, kw: [gm(p, kw)]),
+        # (mu + 3 mu)
+        "UEA3": mk("ThreeFoldEA", lambda p, kw: [_Tripler(), gm(p, kw)]),
+        # tournament + mutation + one random immigrant per generation (its own evaluation through `problem`)
+        "UEAi": mk("ImmigrantEA", lambda p, kw: [TournamentSelection(), gm(p, kw), _Immigrants(p)]),
+    }
+
+
+_USER_EA = {}
+
+
 def make_level(engine, problem, lsc, gens, box, desc):
     rng = box[:, 1] - box[:, 0]
     std = float(np.min(rng)) * desc.get("std_factor", 1.0 / 6.0)
     mstd = float(np.mean(rng)) * desc.get("mstd_factor", 0.25)
     pop = desc.get("pop", 6)
     if engine in SEA_FAMILY:
-        cls = {"SEA": SEA, "SEAX": SEAWithCrossover, "GA": GAStyleSEA, "SEAA": SEAWithAdaptiveMutation, "MWEA": MWEA}[
-            engine
-        ]
+        if engine in USER_EAS:
+            if not _USER_EA:
+                _USER_EA.update(_user_ea_classes())
+            cls = _USER_EA[engine]
+        else:
+            cls = {"SEA": SEA, "SEAX": SEAWithCrossover, "GA": GAStyleSEA, "SEAA": SEAWithAdaptiveMutation, "MWEA": MWEA}[engine]
         kw = dict(mutation_std=mstd, p_mutation=desc.get("pmut", 1.0), k_elites=desc.get("kelites", 1))
         if engine == "MWEA":
             kw.update(election_group_size=desc.get("mwea_group", 4), k_elites=2)
@@ -813,7 +870,12 @@ class World:
             else:
                 f = make_objective(d["obj"], self.box, self.maximize, shift)
             self.pure.append(make_objective(d["obj"], self.box, self.maximize, shift))
-            p = FunctionProblem(Recorder(f, i, self.log, array_memo=bool(d.get("array_memo"))), bounds=self.box.copy(), maximize=self.maximize, **({"use_cache": True} if d.get("use_cache") else {}))
+            p = FunctionProblem(Recorder(f, i, self.log, array_memo=bool(d.get("array_memo"))), bounds=self.box.copy(), maximize=_cast_verdict(self.maximize, d.get("maximize_type")), **({"use_cache": True} if d.get("use_cache") else {}))
+            if d.get("inner_wrap"):
+                # another shipped wrapper between the objective's problem and the budget wrapper
+                from pyhms.core.problem import EvalCountingProblem, StatsGatheringProblem
+
+                p = {"stats": StatsGatheringProblem, "count": EvalCountingProblem}[d["inner_wrap"]](p)
             cut = None
             if d["cutoff"] is not None:
                 c = d["cutoff"][i] if isinstance(d["cutoff"], (list, tuple)) else d["cutoff"]
@@ -835,6 +897,21 @@ class World:
             self.lsc_probes.append(lp)
             if d.get("shared_problem"):
                 shared = p
+            tag = d.get("reuse_levels")
+            if tag:
+                # a user who keeps the level-config objects and points them at another problem for the next tree
+                key = ("level", tag, i, e)
+                if key in REUSE:
+                    cfg, lp = REUSE[key]
+                    lp.w = self
+                    lp.inner = make_lsc(lscs[i])
+                    self.lsc_probes[-1] = lp
+                    cfg.problem = p
+                else:
+                    cfg = make_level(e, p, lp, gens[i], self.box, d)
+                    REUSE[key] = (cfg, lp)
+                levels.append(cfg)
+                continue
             levels.append(make_level(e, p, lp, gens[i], self.box, d))
         self.level_configs = levels
         if d["sprout"]["kind"] == "scripted":
